@@ -113,10 +113,11 @@ def block_event(n, shifted, radius_q, margin, lazy=False, has_cutoff=False, cuto
     return ev
 
 
-def com_event(n, shifted, units, lazy, rng):
+def com_event(n, shifted, units, lazy, rng, reuse=False):
     import abtem
     nx, ny = n
-    ev = {"k": "com", "n": [nx, ny], "shifted": shifted, "units": units, "lazy": lazy, "raised": False, "com": [[], []], "cross_zero": True, "linear_ppb": 0}
+    ev = {"k": "com", "n": [nx, ny], "shifted": shifted, "units": units, "lazy": lazy, "raised": False, "com": [[], []], "cross_zero": True, "linear_ppb": 0,
+          "reuse": bool(reuse)}
     try:
         from abtem.core.energy import energy2wavelength
         from abtem.core.axes import ScanAxis
@@ -136,6 +137,12 @@ def com_event(n, shifted, units, lazy, rng):
             arr = da.from_array(arr, chunks=(nx, nx, ny))
         dp = abtem.measurements.DiffractionPatterns(arr, sampling=samp, fftshift=shifted, metadata={"energy": ENERGY},
                                                     ensemble_axes_metadata=[ScanAxis(label="x", sampling=0.1, units="Å")])
+        if reuse:
+            # the pattern object has been measured before, in the other units and in these (results discarded)
+            for u in (("mrad", "1/Å") if units == "1/Å" else ("1/Å", "mrad")):
+                first = dp.center_of_mass(units=u)
+                if lazy:
+                    first.compute()
         out = dp.center_of_mass(units=units)
         if lazy:
             out = out.compute()
@@ -156,11 +163,11 @@ def com_event(n, shifted, units, lazy, rng):
     return ev
 
 
-def gradient_event(n, mode, sampling, lazy):
+def gradient_event(n, mode, sampling, lazy, reuse=False):
     """f = single Fourier mode (band-limited, periodic); integrate_gradient(grad f) == f - min f"""
     import abtem
     nx, ny = n
-    ev = {"k": "gradient", "n": [nx, ny], "mode": list(mode), "lazy": lazy, "raised": False, "err_ppb": 0}
+    ev = {"k": "gradient", "n": [nx, ny], "mode": list(mode), "lazy": lazy, "raised": False, "err_ppb": 0, "reuse": bool(reuse)}
     try:
         x = np.arange(nx)[:, None] * sampling[0]
         y = np.arange(ny)[None, :] * sampling[1]
@@ -180,6 +187,10 @@ def gradient_event(n, mode, sampling, lazy):
             g = da.from_array(g, chunks=((1,), cx, cy))
         from abtem.core.axes import OrdinalAxis
         im = abtem.Images(g, sampling=sampling, ensemble_axes_metadata=[OrdinalAxis(values=(0,))])
+        if reuse:
+            first = im.integrate_gradient()          # the same gradient images integrated before (result discarded)
+            if lazy:
+                first.compute()
         out = im.integrate_gradient()
         if lazy:
             out = out.compute()
